@@ -26,14 +26,8 @@ def sixelResizeCell : List String := ["cellPixW, cellPixH := s.vx.cellPixelSize(
   "s.h = max.Y / cellPixH",
   "if max.Y%cellPixH != 0 { s.h += 1 }"]
 
-def kittyDrawGates : List String := ["atomicLoad(&k.encoding)"]
-
 def kittyWriteFunc : List String := ["if !atomicLoad(&k.uploaded) { w.Write(k.buf.Bytes()) atomicStore(&k.uploaded, true) k.buf.Reset() }",
   "fmt.Fprintf(w, \"\\x1B_Ga=p,i=%d,p=%d,C=1\\x1B\\\\\", k.id, pid)"]
-
-def sixelDrawGates : List String := ["s.buf.Len() == 0",
-  "atomicLoad(&s.encoding)",
-  "s.w > w || s.h > h"]
 
 def halfDraw : List String := ["col, row := win.Origin()",
   "log.Trace(\"placing half block image at cell %d,%d\", col, row)",
